@@ -68,11 +68,13 @@ def perform(acl: Acl, op: dict):
     if k == "flip3":
         a = acl.platform
         b = op["p"]
+        from .aclobs import norm
         acl.platform = b
         t1 = acl.line
+        d1 = norm(acl.data())
         acl.platform = a
         acl.platform = b
-        return [t1, acl.line]
+        return [t1, acl.line, d1 == norm(acl.data())]
     if k == "set_port_nr":
         acl.port_nr = op["b"]
         return None
